@@ -60,6 +60,7 @@ def cg_class(name):
         for k, v in (param.get("cg_options") or {}).items():
             if v is not None:
                 setattr(self.options, k, v)
+        d["en"] = vsc.bit_t(1)          # gate of the crosses that are declared with an iff
         self.with_sample(d)
         cpl = []
         for j, cp in enumerate(cps):
@@ -72,7 +73,8 @@ def cg_class(name):
                 xo["at_least"] = x["at_least"]
             if x.get("weight") is not None:
                 xo["weight"] = x["weight"]
-            setattr(self, "x%d" % xi, vsc.cross([cpl[j] for j in x["cps"]], options=xo if xo else None))
+            kw = {"iff": self.en} if x.get("iff") else {}
+            setattr(self, "x%d" % xi, vsc.cross([cpl[j] for j in x["cps"]], options=xo if xo else None, **kw))
     cls = vsc.covergroup(type(name, (object,), {"__init__": __init__}))
     _classes[name] = cls
     return cls
@@ -83,12 +85,12 @@ def quiet(f, *a, **k):
         return f(*a, **k)
 
 
-def sample(inst, vals):
+def sample(inst, vals, en=1):
     args = []
     for j, v in enumerate(vals):
         e = inst._enums[j]
         args.append(e(v) if e is not None else v)
-    inst.sample(*args)
+    inst.sample(*args, en)
 
 
 def item_models(m):
